@@ -43,7 +43,7 @@ REACH = {t: ["co_value_cross_running", "co_raise_cross_running", "plain_none_cro
              "closed_coroutine_call", "yield_injected_in_dispatch", "four_caller_threads", "wrapper_looked_up_elsewhere",
              "queued_while_not_running_not_started", "queued_while_not_running_between_run_phases",
              "fire_and_forget_executed", "handed_over_before_stop_running", "handed_over_before_stop_queued",
-             "proxy_is_sole_holder_of_object"] for t in ("quick", "thorough")}
+             "proxy_is_sole_holder_of_object", "slow_unwind_relayed", "slow_unwind_relayed_after_1s"] for t in ("quick", "thorough")}
 SHARD_TIMEOUT = {"quick": 300, "thorough": 900}
 KINDS = ["co_value", "co_raise", "plain_none", "plain_value", "plain_raise", "attr"]
 
@@ -90,6 +90,20 @@ class Probe:
     async def co_forever(self, tag):
         self._rec(tag, "co_forever")
         await asyncio.Event().wait()
+
+    async def co_slow_unwind(self, tag, delay, end):
+        """A coroutine with clean-up work: cancelled, it needs `delay` seconds before it ends - with a value,
+        with an exception of its own, or by letting the cancellation through."""
+        self._rec(tag, "co_slow_unwind")
+        try:
+            await asyncio.Event().wait()
+        except asyncio.CancelledError:
+            await asyncio.sleep(delay)
+            if end == "value":
+                return ("unwound", tag)
+            if end == "raise":
+                raise ProbeError(tag)
+            raise
 
     def plain_block(self, gate):
         # keeps the owner's loop busy until the harness opens the gate
@@ -419,11 +433,65 @@ def run_shard(desc) -> Acc:
         except BaseException:  # noqa: BLE001
             acc.notes.append("owner thread did not complete within 5 s after force_stop")
 
+    async def slow_unwind_phase(rd):
+        """Coroutine calls in flight at force_stop() whose coroutines take a while to unwind after being
+        cancelled (a finally / except block that awaits: flush, close handshake): whatever each ends with - a
+        value, its own exception, the cancellation - reaches its caller; none is abandoned half-way."""
+        thread = bt.EventLoopThread()
+        complete = await thread.start()
+        probe = Probe()
+        proxy = bt.ThreadsafeProxy(probe, thread.loop)
+        plan = [(0.05, "value"), (0.3, "raise"), (1.4, "value"), (1.25, "raise"), (1.6, "cancel"), (0.0, "value")]
+        futs = [(d, e_, newtag()) for d, e_ in plan]
+        futs = [(d, e_, tg, proxy.co_slow_unwind(tg, d, e_)) for d, e_, tg in futs]
+        await thread.run_coroutine_threadsafe(asyncio.sleep(0.02))  # all of them are running now
+        t_stop = time.monotonic()
+        thread.force_stop()
+
+        # no wall-clock verdicts: wait (under a generous watchdog) until the owner's thread has ended - from then
+        # on nothing can complete a call any more - and only then look at what each caller got
+        try:
+            await asyncio.wait_for(asyncio.shield(complete), 60.0)
+        except BaseException:  # noqa: BLE001
+            acc.notes.append("owner thread did not end within 60 s after force_stop with slowly unwinding calls: phase not judged")
+            return
+        ended_after = time.monotonic() - t_stop
+        aws = [asyncio.ensure_future(f) for _, _, _, f in futs if inspect.isawaitable(f)]
+        await asyncio.wait(aws, timeout=1.0)
+        for (d, e_, tg, f), fut in zip(futs, aws):
+            acc.case()
+            case = {"phase": "force_stop with slowly unwinding coroutine calls in flight", "unwind_s": d, "ends_with": e_,
+                    "owner_thread_ended_after_s": round(ended_after, 2)}
+            if not fut.done():
+                out = "unresolved"
+                fut.cancel()
+            elif fut.cancelled():
+                out = "cancel"
+            elif isinstance(fut.exception(), ProbeError):
+                out = "raise"
+            elif fut.exception() is not None:
+                out = type(fut.exception()).__name__
+            else:
+                out = "value" if fut.result() == ("unwound", tg) else f"returned {fut.result()!r}"
+            if out == "unresolved":
+                acc.violation("C20/stop/call-in-flight-at-stop-left-hanging",
+                              f"a coroutine call that needs {d}s to unwind after cancellation (ending with {e_}) never came back to its "
+                              f"caller: the owner's thread ended {ended_after:.2f}s after force_stop() with the call still pending", case)
+            elif out != e_:
+                acc.violation("C20/relay/outcome-of-unwinding-coroutine-not-relayed",
+                              f"the coroutine ended with {e_} {d}s after force_stop(); its caller observed {out}", case)
+            else:
+                acc.hit("slow_unwind_relayed" + ("_after_1s" if d > 1.0 else ""))
+            acc.nontrivial(("co_slow_unwind", "other", "stop", e_, d))
+            acc.state(("co_slow_unwind", "other", "stop", out))
+
     async def main():
         rnd = random.Random(desc["seed"])
         for rd in range(desc["rounds"]):
             await paused_owner_phase(rd)
             await stop_with_queued_calls_phase(rd)
+            if rd == 0:
+                await slow_unwind_phase(rd)
             thread = bt.EventLoopThread()
             complete = await thread.start()
             owner_loop = thread.loop
